@@ -70,6 +70,7 @@ def scenarios(tier, rnd, varcfgs, classes):
     for r in rows:
         r["classes"] = classes
         r["sample"] = 2
+        r["selftest"] = r["id"] == "v0"
     return rows
 
 
@@ -90,7 +91,7 @@ def run_parallel(rows, name, nproc, extra=None):
     return [r for o in outs for r in o]
 
 
-def judge(byid, res, cats, varcat, report):
+def judge(byid, res, cats, varcat, report, selftest=False):
     st = {"cases": 0, "agree_accept": 0, "agree_reject": 0, "unassignable": 0, "outer_checked": 0, "classes": {}, "circuits": 0,
           "distinct": set(), "first_mismatch": {}, "lengths": {}, "unsupported_lengths": [], "skipped": []}
     shape = {}
@@ -103,6 +104,8 @@ def judge(byid, res, cats, varcat, report):
             st["circuits"] += 1
             continue
         s = byid.get(x.get("id"))
+        if x.get("unsupported_length") and selftest:
+            continue
         if x.get("unsupported_length"):
             # the model lists this length as not assignable: the native verifier accepts, the assignment routine refuses
             st["unsupported_lengths"].append({"id": x["id"], "db": x["db"], "native": x["native"], "assignable": x["assignable"], "detail": x["detail"]})
@@ -111,7 +114,7 @@ def judge(byid, res, cats, varcat, report):
                 if x["circuit"] != x["native"]:
                     report("violation", "C11/disagree/unsupported-length", "in-circuit acceptance differs from the native verdict", {"scenario": s, "observed": x})
             continue
-        if "class" not in x or x.get("empty"):
+        if "class" not in x or x.get("empty") or bool(x.get("selftest")) != selftest:
             continue
         sh = shape[x["id"]]
         nl = min(x["layers"], 3)
@@ -185,7 +188,7 @@ def run(chk, tier):
 
     th = threading.Thread(target=build)
     th.start()
-    cats_lines, named = c06.model_runs(chk, STARK_CFGS, dict(CANARIES, **MUTANTS))
+    cats_lines, named = c06.model_runs(chk, STARK_CFGS, dict(CANARIES, **MUTANTS), mutants=set(MUTANTS))
     th.join()
     if "build_error" in bg:
         raise bg["build_error"]
@@ -238,10 +241,8 @@ def run(chk, tier):
     for what, cls in named.items():
         chk.canary("the class named by the spec canary (%s: %s) is part of the replay" % (what, cls),
                    cls is not None and st["classes"].get(cls, {}).get("native_reject", 0) > 0)
-    can_rows = [dict(rows[2], id="kv0", dbs=[5, 8], classes={k: ["none", "final_poly"] for k in classes})]
-    cres = run_parallel(can_rows, "c11_canary", 1, extra=["--selftest"])
     flagged = []
-    judge({r["id"]: r for r in can_rows}, cres, cats, varcat, lambda kind, key, d, p: flagged.append(key) if kind == "violation" else None)
+    judge(byid, res, cats, varcat, lambda kind, key, d, p: flagged.append(key) if kind == "violation" else None, selftest=True)
     chk.canary("binding: a flipped circuit verdict (untampered proof assigned, tampered proof judged natively) is reported",
                any(k.startswith("C11/disagree/var/final_poly") for k in flagged))
 
